@@ -229,6 +229,8 @@ def grid_value_st(grid):
         return st.integers(-6, 6).map(lambda k: k / 2.0)
     if grid == "small":
         return st.integers(-1, 1)
+    if grid == "nonneg":    # non-negative integers, some large enough that a few squared values exceed an int8
+        return st.sampled_from([0, 1, 2, 3, 4, 5, 6, 9, 11])
     if grid == "f32edge":   # integers just above 2**24: not all representable in single precision (trees use float32)
         return st.integers(-6, 6).map(lambda k: 16777216 + 3 * k)
     if grid == "real":      # real-valued contexts (two decimals); only for checks that compare with a tolerance
